@@ -47,4 +47,32 @@ An entry is removed iff it ends in `.proto` and its NAME is not the CLEANED path
 def prepareOutdir (imports : List Str) (entries : Listing) : Listing :=
   entries.filter fun e => !(hasSuffix e.1 protoExt) || (imports.map clean).contains e.1
 
+/-! ### `xfs.RewriteSubdir` (after fix D10: the rules are tried in a fixed order) -/
+
+/-- lexicographic order on strings (Go `<` on strings compares bytes; the modelled rule keys are ASCII) -/
+def strLt : Str → Str → Bool
+  | [], [] => false
+  | [], _ :: _ => true
+  | _ :: _, [] => false
+  | a :: as, b :: bs => if a < b then true else if b < a then false else strLt as bs
+
+/-- the order the rules are tried in: longer cleaned old subdir first, then the spelling of the key -/
+def ruleLe (a b : Str × Str) : Bool :=
+  let la := (clean a.1).length
+  let lb := (clean b.1).length
+  if la != lb then decide (la > lb) else !(strLt b.1 a.1)
+
+/-- `strings.Replace(s, old, new, 1)` -/
+def replaceFirst (old new : Str) : Str → Str
+  | [] => if old.isEmpty then new else []
+  | c :: cs => if old.isPrefixOf (c :: cs) then new ++ (c :: cs).drop old.length else c :: replaceFirst old new cs
+
+/-- `RewriteSubdir(path, rules)`; `rules` = the entries of the map in whatever order the runtime enumerates them -/
+def rewriteSubdir (path : Str) (rules : List (Str × Str)) : Str :=
+  if rules.isEmpty then path else
+  let p := clean path
+  match (rules.mergeSort ruleLe).find? (fun r => (clean r.1).isPrefixOf p) with
+  | none => p
+  | some r => clean (replaceFirst (clean r.1) (clean r.2) p)
+
 end TableauVerif.Model.Path
